@@ -197,4 +197,64 @@ theorem expected_owned : ∀ p ∈ txnPrograms, ownedOK p.2 = true := by decide 
 theorem expected_args : ∀ p ∈ txnPrograms, p.1 ≠ "Bulk" → argsOK p.2 = true := by decide +kernel
 theorem bulk_args_not_cloned : argsOK pBulk = false := by decide +kernel
 
+/-! ## mongokit.Collection write methods (DESIGN §4.1 `Gen/CollWrites`) -/
+
+open CollStep in
+def collPrograms : List CollProg := [
+  { name := "Insert", params := ["doc"],
+    steps := [putId "doc", forBegin "c.Indexes", idxAdd, forEnd, setAdd] },
+  { name := "Replace", params := ["query", "repl", "sort"],
+    steps := [sort, filter, putId "repl", idCheck,
+              forBegin "c.Indexes", idxRemove, idxAdd, forEnd, setReplace] },
+  { name := "Update", params := ["query", "update", "sort", "skip", "limit", "arrayFilters"],
+    steps := [sort, filter, skip, cloneDocs, apply "newList",
+              forBegin "newList", idCheck, forEnd,
+              forBegin "list", forBegin "c.Indexes", idxRemove, forEnd, forEnd,
+              forBegin "newList", forBegin "c.Indexes", idxAdd, forEnd, forEnd,
+              forBegin "newList", setReplace, forEnd] },
+  { name := "Upsert", params := ["query", "repl", "update", "arrayFilters"],
+    steps := [extract, cloneDocs, putId "doc", putId "doc", apply "doc", putId "doc",
+              forBegin "c.Indexes", idxAdd, forEnd, setAdd] },
+  { name := "Delete", params := ["query", "sort", "skip", "limit"],
+    steps := [sort, filter, skip,
+              forBegin "list", forBegin "c.Indexes", idxRemove, forEnd, forEnd,
+              forBegin "list", setRemove, forEnd] },
+  { name := "CreateIndex", params := ["name", "config"],
+    steps := [mapPut, idxBuild] },
+  { name := "DropIndex", params := ["name"],
+    steps := [mapDelete, forBegin "c.Indexes", mapDelete, forEnd] }]
+
+def methodOf : String → Option Method
+  | "Insert" => some .insert | "Replace" => some .replace | "Update" => some .update
+  | "Upsert" => some .upsert | "Delete" => some .delete | "CreateIndex" => some .createIndex
+  | "DropIndex" => some .dropIndex | _ => none
+
+/-- what a method writes, read off its steps: its document PARAMETER (`putId` on a parameter), the Set,
+    existing indexes, the Indexes map (`idxBuild` fills the index the call has just created) -/
+def footprintOf (c : CollProg) : Footprint :=
+  { arg := c.steps.any fun s => match s with | .putId x => c.params.contains x | _ => false,
+    list := c.steps.any fun s => s == .setAdd || s == .setReplace || s == .setRemove,
+    idx := c.steps.any fun s => s == .idxAdd || s == .idxRemove,
+    map := c.steps.any fun s => s == .mapPut || s == .mapDelete }
+
+/-- documents written in place (`apply`, `putId`) are parameters only for `putId` (covered by the footprint);
+    `apply` only ever targets a local produced by `cloneDocs`/`extract` earlier in the method -/
+def applyFresh (c : CollProg) : Bool :=
+  let rec go : List CollStep → Bool → Bool
+    | [], _ => true
+    | .cloneDocs :: r, _ => go r true
+    | .extract :: r, _ => go r true
+    | .apply x :: r, fresh => fresh && !c.params.contains x && go r fresh
+    | .other _ :: _, _ => false
+    | _ :: r, fresh => go r fresh
+  go c.steps false
+
+/-- the interpreter's per-method footprint (`Method.footprint`, Model/Own.lean) is exactly what the
+    Collection methods write -/
+theorem collFootprint_ok : ∀ c ∈ collPrograms, (methodOf c.name).map Method.footprint = some (footprintOf c) := by
+  decide +kernel
+
+/-- `Update`/`Apply` run on clones (`CloneList`, `Clone`, `Extract`), never on a stored document -/
+theorem collApply_fresh : ∀ c ∈ collPrograms, applyFresh c = true := by decide +kernel
+
 end Lungo.Expected
